@@ -16,6 +16,11 @@ for m in muts:
             print('nocompile ', m['id'], syn.stderr.splitlines()[0] if syn.stderr else ''); bad += 1; continue
         r = subprocess.run(['python3', os.path.join(V, 'pam', 'pamcheck.py'), 'C20', 'quick'], env=dict(os.environ, VERIF_PAM_SRC=f, VERIF_OUT=td), capture_output=True, text=True)
         rules = sorted({l.split('rule=')[1].split()[0] for l in r.stdout.splitlines() if l.startswith(('VIOLATED rule=', 'UNDECIDED rule='))})
+        if m['expect'] == 'silent':   # behaviour-preserving variant: no rule may fire
+            ok = not rules and r.returncode == 0
+            print(('silent    ' if ok else 'FALSE-ALARM'), m['id'], 'fired', rules)
+            bad += 0 if ok else 1
+            continue
         ok = any(x.startswith(m['expect']) for x in rules)
         print(('caught    ' if ok else 'MISSED    '), m['id'], 'expect', m['expect'], 'fired', rules)
         bad += 0 if ok else 1
